@@ -15,77 +15,12 @@ tied to the real output by the byte-exact correspondence runs of `harness/src/bi
 cmap closure, .notdef — klippa has no GSUB closure).  Glyphs that are only kept as composite
 components or COLR layers are not in that set and lose their GDEF data (as in HarfBuzz).
 -/
-import FontVerif.Model.SubsetGdef
-import FontVerif.Lemmas.SubsetLayout
-import FontVerif.Lemmas.SubsetLayoutClassDef
-import FontVerif.Lemmas.SubsetGdef
-import FontVerif.Lemmas.SubsetHvar
+import FontVerif.Lemmas.SubsetLayoutProps
 set_option linter.unusedVariables false
 namespace FontVerif.C17Layout
 open FontVerif FontVerif.Layout FontVerif.SubsetLayout FontVerif.SubsetGdef
 
 /-! ## 1. Coverage -/
-
-/-- a coverage table as the specification requires it: glyph array strictly ascending / range
-records ascending, disjoint, with running start coverage indices; every covered glyph exists -/
-def CovOk (p : LPlan) : Coverage → Prop
-  | .fmt1 xs => xs.Pairwise (· < ·) ∧ ∀ g ∈ xs, g < p.numGlyphs ∧ g < 65536
-  | .fmt2 rs => WFRanges 0 rs ∧ ∀ g ∈ expandRanges rs, g < p.numGlyphs ∧ g < 65536
-
-/-- the glyph is kept for layout -/
-def kept (p : LPlan) (g : Nat) : Bool := (p.get g).isSome
-
-theorem CovOk.sorted {p : LPlan} {c : Coverage} (hc : CovOk p c) : c.glyphs.Pairwise (· < ·) := by
-  cases c with
-  | fmt1 xs => exact hc.1
-  | fmt2 rs => exact wf_expand_sorted hc.1
-
-theorem CovOk.get_eq {p : LPlan} {c : Coverage} (hc : CovOk p c) (g : Nat) :
-    c.get g = indexIn g c.glyphs := by
-  cases c with
-  | fmt1 xs => exact get_fmt1 hc.1 (fun x hx => (hc.2 x hx).2) g
-  | fmt2 rs =>
-    apply get_fmt2 hc.1
-    intro r hr
-    have hse := wf_start_le_end hc.1 r hr
-    exact (hc.2 r.end_ (mem_expandRanges.mpr ⟨r, hr, hse, Nat.le_refl _⟩)).2
-
-theorem covRetained_eq {p : LPlan} (hp : PlanOk p) {c : Coverage} (hc : CovOk p c) :
-    covRetained p c = .ok (c.glyphs.filterMap p.get) := by
-  cases c with
-  | fmt1 xs =>
-    simp only [covRetained, Coverage.glyphs]
-    rw [cov1Retained_eq hp hc.1]; rfl
-  | fmt2 rs =>
-    simp only [covRetained, Coverage.glyphs]
-    exact cov2Retained_eq hp hc.1 (fun g hg => (hc.2 g hg).1)
-
-/-- the whole behaviour of `CoverageTable::subset` on a well-formed table: nothing retained =
-`Err(EMPTY)`; otherwise a table whose glyphs are the new ids of the kept covered glyphs in coverage
-order and on which read-fonts' `get` (binary search) answers "position in that list" -/
-theorem subsetCoverage_spec {p : LPlan} (hp : PlanOk p) {c : Coverage} (hc : CovOk p c)
-    (hsmall : (c.glyphs.filterMap p.get).length < 65536) :
-    (c.glyphs.filterMap p.get = [] ∧ subsetCoverage p c = .error .empty) ∨
-    ∃ w, subsetCoverage p c = .ok w ∧ w.toCoverage.glyphs = c.glyphs.filterMap p.get ∧
-      ∀ n, w.toCoverage.get n = indexIn n (c.glyphs.filterMap p.get) := by
-  unfold subsetCoverage
-  rw [covRetained_eq hp hc]
-  by_cases he : c.glyphs.filterMap p.get = []
-  · left
-    refine ⟨he, ?_⟩
-    simp [he, bind, Except.bind, throw, throwThe, MonadExceptOf.throw]
-  · right
-    have hlt : ∀ x ∈ c.glyphs.filterMap p.get, x < 65536 := by
-      intro x hx
-      obtain ⟨g, _, e⟩ := List.mem_filterMap.mp hx
-      exact (hp.get_lt e).1
-    obtain ⟨w, hw, hg, hget⟩ := serializeCoverage_get he (kept_sorted hp hc.sorted) hlt hsmall
-    refine ⟨w, ?_, hg, hget⟩
-    have : (c.glyphs.filterMap p.get).isEmpty = false := by
-      cases h : c.glyphs.filterMap p.get with
-      | nil => exact absurd h he
-      | cons _ _ => rfl
-    simp [bind, Except.bind, this, hw]
 
 /-- **coverage_subset_glyphs**: the glyphs of the subset coverage are exactly
 `{ glyph_map g | g covered, g kept }`, in ascending order (= coverage order of the original) -/
@@ -179,26 +114,8 @@ no covered glyph is kept (every caller then omits the table), and succeeds other
 theorem coverage_empty_iff_no_kept_glyph {p : LPlan} (hp : PlanOk p) {c : Coverage} (hc : CovOk p c)
     (hsmall : (c.glyphs.filterMap p.get).length < 65536) :
     (subsetCoverage p c = .error .empty ↔ ∀ g ∈ c.glyphs, p.get g = none) ∧
-    ((∃ g ∈ c.glyphs, kept p g = true) → ∃ w, subsetCoverage p c = .ok w) := by
-  have hnil : c.glyphs.filterMap p.get = [] ↔ ∀ g ∈ c.glyphs, p.get g = none := by
-    rw [List.filterMap_eq_nil_iff]
-  rcases subsetCoverage_spec hp hc hsmall with ⟨he, hr⟩ | ⟨w, hw, hg, _⟩
-  · refine ⟨⟨fun _ => hnil.mp he, fun _ => hr⟩, ?_⟩
-    rintro ⟨g, hg, hk⟩
-    have := hnil.mp he g hg
-    simp [kept, this] at hk
-  · refine ⟨⟨fun h => (by rw [hw] at h; cases h), fun hall => ?_⟩, fun _ => ⟨w, hw⟩⟩
-    exfalso
-    have hne : w.toCoverage.glyphs = [] := by rw [hg]; exact hnil.mpr hall
-    -- the writer is only reached with a non-empty list
-    unfold subsetCoverage at hw
-    rw [covRetained_eq hp hc, hnil.mpr hall] at hw
-    simp [bind, Except.bind, throw, throwThe, MonadExceptOf.throw] at hw
-
-/-- non-vacuity: the hypotheses hold for a compact renumbering {0↦0, 4↦1, 5↦2, 9↦3} of a 12-glyph
-font and the format 2 coverage 3..=6, 9; the subset then covers 1, 2, 3 -/
-def exPlan : LPlan := { glyphset := [0, 4, 5, 9], gmap := [(0, 0), (4, 1), (5, 2), (9, 3)], numGlyphs := 12 }
-def exCov : Coverage := .fmt2 [⟨3, 6, 0⟩, ⟨9, 9, 4⟩]
+    ((∃ g ∈ c.glyphs, kept p g = true) → ∃ w, subsetCoverage p c = .ok w) :=
+  coverage_empty_iff_no_kept_glyph_core hp hc hsmall
 
 example : PlanOk exPlan :=
   ⟨by decide, by simp [exPlan], by simp [exPlan], by simp [exPlan]⟩
@@ -213,40 +130,6 @@ example : (match subsetCoverage exPlan exCov with
 
 /-! ## 2. ClassDef -/
 
-/-- a class definition as the specification requires it (format 2: records ascending and disjoint;
-format 1 has no side condition) -/
-def ClassOk : ClassDef → Prop
-  | .fmt1 _ _ => True
-  | .fmt2 rs => WFClassRanges rs
-
-/-- the plan of a font with at most 65535 output glyphs -/
-structure PlanOk' (p : LPlan) : Prop extends PlanOk p where
-  newLt' : ∀ kv ∈ p.gmap, kv.2 < 65535
-  numLe : p.numGlyphs ≤ 65536
-  nonempty : p.glyphset ≠ []
-
-/-- the class a returned class map gives (identity without remapping; an unknown class is 0) -/
-def remapC (cm : Option (List (Nat × Nat))) (c : Nat) : Nat :=
-  match cm with
-  | none => c
-  | some m => (m.lookup c).getD 0
-
-/-- the class the subset has to give the image of kept glyph `g` -/
-def wantClass (a : CdArgs) (cd : ClassDef) (g : Nat) : Nat := if passFilter a g then cd.get g else 0
-
-theorem subsetClassDef_pairs {p : LPlan} (hp : PlanOk' p) {a : CdArgs} {cd : ClassDef}
-    (hcd : ClassOk cd) : ∃ ps, cdPairs p a cd = some ps ∧ PairsSpec p a cd ps := by
-  obtain ⟨ps, hps⟩ := cdPairs_total hp.nonempty a cd
-  refine ⟨ps, hps, cdPairs_spec hp.toPlanOk hp.numLe a ?_ hps⟩
-  intro rs e; subst e; exact hcd
-
-theorem pairs_classes_nz {p : LPlan} {a : CdArgs} {cd : ClassDef} {ps : List (Nat × Nat)}
-    (hspec : PairsSpec p a cd ps) : ∀ c ∈ retainedClasses ps, c ≠ 0 := by
-  intro c hc
-  obtain ⟨n, hn⟩ := ((retainedClasses_spec ps).2 c).mp hc
-  obtain ⟨_, _, _, _, hc0⟩ := (hspec.2 n c).mp hn
-  exact hc0
-
 /-- **classdef_subset_get**: for every `ClassDefSubsetStruct`: when `ClassDef::subset` succeeds, reading
 the written table with read-fonts' `ClassDef::get` at the image of a kept glyph gives the class map
 applied to the original class of the glyph (the original class itself when `remap_class` is false, as
@@ -258,74 +141,8 @@ theorem classdef_subset_get {p : LPlan} (hp : PlanOk' p) {a : CdArgs} {cd : Clas
     (h : subsetClassDef p a cd = .ok (out, cm)) :
     (∀ g n, p.get g = some n → out.get n = remapC cm (wantClass a cd g)) ∧
     (∀ n, (∀ g, p.get g ≠ some n) → out.get n = 0) ∧
-    (cm.isSome = a.remapClass) := by
-  obtain ⟨ps, hps, hspec⟩ := subsetClassDef_pairs hp (a := a) hcd
-  have hkeys : ∀ x ∈ ps, x.1 < 65535 := by
-    intro x hx
-    obtain ⟨g, hg, _⟩ := (hspec.2 x.1 x.2).mp hx
-    exact hp.newLt' _ ((hp.get_iff g x.1).mp hg)
-  have hget := pairsSpec_itemGet hp.toPlanOk hspec
-  unfold subsetClassDef at h
-  simp only [hps] at h
-  split at h
-  · cases h
-  · by_cases hr : a.remapClass = true
-    · simp only [hr, Bool.not_true, Bool.false_eq_true, ↓reduceIte] at h
-      cases hcm : classMap (useClassZero p a ps.length) (retainedClasses ps) with
-      | none => simp [hcm] at h
-      | some m =>
-        simp only [hcm] at h
-        have hs' : SortedItems (ps.map fun x => (x.1, (m.lookup x.2).getD 0)) := by
-          unfold SortedItems; rw [List.pairwise_map]; exact hspec.1
-        have hk' : ∀ x ∈ ps.map (fun x => (x.1, (m.lookup x.2).getD 0)), x.1 < 65535 := by
-          intro x hx
-          obtain ⟨y, hy, e⟩ := List.mem_map.mp hx
-          rw [← e]; exact hkeys y hy
-        obtain ⟨cd', hw, hg'⟩ := serializeClassDef_get hs' hk'
-        rw [hw] at h
-        simp only [Except.map, Except.ok.injEq, Prod.mk.injEq] at h
-        obtain ⟨e1, e2⟩ := h
-        subst e1; subst e2
-        have h0 := (classMap_lookup (retainedClasses_spec ps).1 (pairs_classes_nz hspec) hcm).1
-        have hmap := itemGet_map (fun c => (m.lookup c).getD 0)
-        refine ⟨?_, ?_, by simp [hr]⟩
-        · intro g n hg
-          rw [hg' n, hmap n ps]
-          have := hget.1 g n hg
-          simp only [remapC, wantClass]
-          cases hi : itemGet n ps with
-          | none =>
-            rw [hi] at this
-            simp only [Option.getD_none] at this
-            rw [← this]
-            simp [h0]
-          | some c =>
-            rw [hi] at this
-            simp only [Option.getD_some] at this
-            rw [← this]; rfl
-        · intro n hn
-          rw [hg' n, hmap n ps]
-          have := hget.2 n hn
-          cases hi : itemGet n ps with
-          | none => rfl
-          | some c =>
-            rw [hi] at this
-            simp only [Option.getD_some] at this
-            subst this
-            simp [h0]
-    · simp only [hr, Bool.not_false, ↓reduceIte] at h
-      obtain ⟨cd', hw, hg'⟩ := serializeClassDef_get hspec.1 hkeys
-      rw [hw] at h
-      simp only [Except.map, Except.ok.injEq, Prod.mk.injEq] at h
-      obtain ⟨e1, e2⟩ := h
-      subst e1; subst e2
-      refine ⟨?_, ?_, by simp [hr]⟩
-      · intro g n hg
-        rw [hg' n]
-        exact hget.1 g n hg
-      · intro n hn
-        rw [hg' n]
-        exact hget.2 n hn
+    (cm.isSome = a.remapClass) :=
+  classdef_subset_get_core hp hcd h
 
 /-- **classdef_subset_total**: on a well-formed table (classes below 0xFFFF) `ClassDef::subset` fails
 only with `Err(EMPTY)`, exactly when `keep_empty_table` is off and no kept glyph (passing the
@@ -334,54 +151,8 @@ theorem classdef_subset_total {p : LPlan} (hp : PlanOk' p) {a : CdArgs} {cd : Cl
     (hcd : ClassOk cd) (hcls : a.remapClass = true → ∀ g n, p.get g = some n → cd.get g < 65535) :
     (∃ r, subsetClassDef p a cd = .ok r) ∨
     (subsetClassDef p a cd = .error .empty ∧ a.keepEmpty = false ∧
-      ∀ g n, p.get g = some n → wantClass a cd g = 0) := by
-  obtain ⟨ps, hps, hspec⟩ := subsetClassDef_pairs hp (a := a) hcd
-  have hkeys : ∀ x ∈ ps, x.1 < 65535 := by
-    intro x hx
-    obtain ⟨g, hg, _⟩ := (hspec.2 x.1 x.2).mp hx
-    exact hp.newLt' _ ((hp.get_iff g x.1).mp hg)
-  unfold subsetClassDef
-  simp only [hps]
-  by_cases he : (!a.keepEmpty && ps.isEmpty) = true
-  · right
-    simp only [he, ↓reduceIte, true_and]
-    simp only [Bool.and_eq_true, Bool.not_eq_eq_eq_not, Bool.not_true, List.isEmpty_iff] at he
-    refine ⟨he.1, ?_⟩
-    intro g n hg
-    unfold wantClass
-    by_cases hf : passFilter a g = true
-    · simp only [hf, ↓reduceIte]
-      apply Classical.byContradiction
-      intro hne
-      have := (hspec.2 n (cd.get g)).mpr ⟨g, hg, hf, rfl, hne⟩
-      rw [he.2] at this; cases this
-    · simp [hf]
-  · left
-    simp only [he, Bool.false_eq_true, ↓reduceIte]
-    by_cases hr : a.remapClass = true
-    · simp only [hr, Bool.not_true, Bool.false_eq_true, ↓reduceIte]
-      -- classes are 1..65534, so there are at most 65534 of them: the u16 counter cannot overflow
-      have hlen2 : (retainedClasses ps).length ≤ 65534 := by
-        have := sorted_length_le_aux (retainedClasses_spec ps).1 1 65535 (fun c hc => by
-          constructor
-          · have := pairs_classes_nz hspec c hc; omega
-          · obtain ⟨n, hn⟩ := ((retainedClasses_spec ps).2 c).mp hc
-            obtain ⟨g, hg, _, hcg, _⟩ := (hspec.2 n c).mp hn
-            rw [← hcg]; exact hcls hr g n hg)
-        omega
-      obtain ⟨m, hm⟩ := classMap_total (useClassZero p a ps.length) hlen2
-      simp only [hm]
-      have hs' : SortedItems (ps.map fun x => (x.1, (m.lookup x.2).getD 0)) := by
-        unfold SortedItems; rw [List.pairwise_map]; exact hspec.1
-      have hk' : ∀ x ∈ ps.map (fun x => (x.1, (m.lookup x.2).getD 0)), x.1 < 65535 := by
-        intro x hx
-        obtain ⟨y, hy, e⟩ := List.mem_map.mp hx
-        rw [← e]; exact hkeys y hy
-      obtain ⟨cd', hw, _⟩ := serializeClassDef_get hs' hk'
-      exact ⟨_, by rw [hw]; rfl⟩
-    · simp only [hr, Bool.not_false, ↓reduceIte]
-      obtain ⟨cd', hw, _⟩ := serializeClassDef_get hspec.1 hkeys
-      exact ⟨_, by rw [hw]; rfl⟩
+      ∀ g n, p.get g = some n → wantClass a cd g = 0) :=
+  classdef_subset_total_core hp hcd hcls
 
 /-- **classdef_remap_is_order_preserving_bijection**: the class map returned under `remap_class` is
 `0 ↦ 0` (unless class zero is reused) followed by the classes that occur among the kept glyphs
@@ -464,122 +235,6 @@ example : ClassOk (.fmt2 [⟨3, 6, 2⟩, ⟨9, 9, 5⟩]) := by
 
 /-! ## 3. GDEF -/
 
-/-- the sub-tables of a successful `subset_gdef` run, one equation per sub-table -/
-theorem gdef_fields {p : LPlan} {g : GdefIn} {o : GdefOut} (h : subsetGdefSem p g = .ok o) :
-    optSem g.glyphClassDef (fun cd => (subsetClassDef p gdefCdArgs cd).map (·.1)) = .ok o.glyphClassDef ∧
-    optSem g.attachList (attachSem p) = .ok o.attachList ∧
-    optSem g.ligCaretList (ligSem p (varPlan p g).vmap) = .ok o.ligCaretList ∧
-    optSem g.markAttachClassDef (fun cd => (subsetClassDef p gdefCdArgs cd).map (·.1)) = .ok o.markAttachClassDef ∧
-    setsPart p g = .ok o.markGlyphSets ∧
-    storePart p g = .ok o.varStore ∧
-    o.major = g.major ∧
-    o.minor = (if o.varStore.isSome then g.minor else if o.markGlyphSets.isSome then 2 else 0) ∧
-    (o.glyphClassDef.isSome || o.attachList.isSome || o.ligCaretList.isSome ||
-      o.markAttachClassDef.isSome || o.markGlyphSets.isSome || o.varStore.isSome) = true := by
-  unfold subsetGdefSem at h
-  simp only [bind, Except.bind] at h
-  split at h
-  · cases h
-  · rename_i store hstore
-    split at h
-    · cases h
-    · rename_i sets hsets
-      split at h
-      · cases h
-      · rename_i mac hmac
-        split at h
-        · cases h
-        · rename_i lig hlig
-          split at h
-          · cases h
-          · rename_i att hatt
-            split at h
-            · cases h
-            · rename_i cls hcls
-              split at h
-              · simp only [pure, Except.pure, Except.ok.injEq] at h
-                subst h
-                rename_i hany
-                exact ⟨hcls, hatt, hlig, hmac, hsets, hstore, rfl, rfl, hany⟩
-              · cases h
-
-theorem optSem_ok {α β : Type} {t : Tbl α} {f : α → M β} {r : Option β} (h : optSem t f = .ok r) :
-    (t = .absent ∧ r = none) ∨
-    ∃ x, t = .ok x ∧ ((f x = .error .empty ∧ r = none) ∨ ∃ y, f x = .ok y ∧ r = some y) := by
-  unfold optSem at h
-  cases t with
-  | absent => left; simp only [pure, Except.pure, Except.ok.injEq] at h; exact ⟨rfl, h.symm⟩
-  | bad => cases h
-  | ok x =>
-    right
-    refine ⟨x, rfl, ?_⟩
-    simp only at h
-    cases hf : f x with
-    | ok y =>
-      simp only [hf, pure, Except.pure, Except.ok.injEq] at h
-      right; exact ⟨y, rfl, h.symm⟩
-    | error e =>
-      cases e with
-      | empty =>
-        simp only [hf, pure, Except.pure, Except.ok.injEq] at h
-        left; exact ⟨rfl, h.symm⟩
-      | soft => simp [hf] at h
-      | hard => simp [hf] at h
-      | trap => simp [hf] at h
-
-/-- read-fonts' `ClassDef::get` on an optional class definition (no table = class 0) -/
-def classOf (cd : Option ClassDef) (g : Nat) : Nat :=
-  match cd with
-  | some cd => cd.get g
-  | none => 0
-
-def tblOpt {α : Type} : Tbl α → Option α
-  | .ok x => some x
-  | _ => none
-
-theorem gdef_class_preserved_aux {p : LPlan} (hp : PlanOk' p) {t : Tbl ClassDef} {r : Option ClassDef}
-    (hcd : ∀ cd, t = .ok cd → ClassOk cd)
-    (h : optSem t (fun cd => (subsetClassDef p gdefCdArgs cd).map (·.1)) = .ok r) :
-    (∀ g n, p.get g = some n → classOf r n = classOf (tblOpt t) g) ∧
-    (∀ n, (∀ g, p.get g ≠ some n) → classOf r n = 0) := by
-  have hw : ∀ cd g, wantClass gdefCdArgs cd g = cd.get g := by
-    intro cd g; simp [wantClass, passFilter, gdefCdArgs]
-  rcases optSem_ok h with ⟨e1, e2⟩ | ⟨cd, e1, hh⟩
-  · subst e1; subst e2
-    exact ⟨fun _ _ _ => rfl, fun _ _ => rfl⟩
-  · subst e1
-    have hok := hcd cd rfl
-    rcases hh with ⟨he, e2⟩ | ⟨y, hy, e2⟩
-    · subst e2
-      -- subset to empty: no kept glyph has a class
-      have hne : subsetClassDef p gdefCdArgs cd = .error .empty := by
-        cases hs : subsetClassDef p gdefCdArgs cd with
-        | ok v => rw [hs] at he; cases he
-        | error e => rw [hs] at he; simp only [Except.map] at he; injection he with he; rw [he]
-      rcases classdef_subset_total hp (a := gdefCdArgs) hok (by simp [gdefCdArgs]) with ⟨v, hv⟩ | ⟨_, _, hz⟩
-      · rw [hv] at hne; cases hne
-      · refine ⟨fun g n hg => ?_, fun _ _ => rfl⟩
-        have := hz g n hg
-        rw [hw] at this
-        simp [classOf, tblOpt, this]
-    · subst e2
-      cases hs : subsetClassDef p gdefCdArgs cd with
-      | error e => rw [hs] at hy; cases hy
-      | ok v =>
-        rw [hs] at hy
-        simp only [Except.map, Except.ok.injEq] at hy
-        obtain ⟨out, cm⟩ := v
-        simp only at hy; subst hy
-        obtain ⟨h1, h2, h3⟩ := classdef_subset_get hp hok hs
-        have hcm : cm = none := by
-          cases cm with
-          | none => rfl
-          | some m => simp [gdefCdArgs] at h3
-        subst hcm
-        refine ⟨fun g n hg => ?_, fun n hn => h2 n hn⟩
-        have := h1 g n hg
-        simpa [classOf, tblOpt, remapC, hw] using this
-
 /-- **gdef_glyph_class_preserved**: `glyph_class(subset, glyph_map g) = glyph_class(original, g)` for
 every glyph kept for layout, read through read-fonts' `ClassDef::get` (a missing GlyphClassDef —
 also one the subsetter dropped because it became empty — is class 0); every other new id has
@@ -649,100 +304,6 @@ theorem gdef_version_downgrade_sound {p : LPlan} {g : GdefIn} {o : GdefOut}
 
 /-! ### coverage-indexed arrays: AttachList, LigCaretList -/
 
-theorem take_all {α : Type} {l : List α} {k : Nat} (h : l.length ≤ k) : l.take k = l :=
-  List.take_of_length_le h
-
-theorem CovOk.length_le {p : LPlan} {c : Coverage} (hc : CovOk p c) : c.glyphs.length ≤ p.numGlyphs := by
-  apply sorted_length_le hc.sorted
-  intro g hg
-  cases c with
-  | fmt1 xs => exact (hc.2 g hg).1
-  | fmt2 rs => exact (hc.2 g hg).1
-
-/-- the coverage table written for a non-empty ascending list of retained new glyph ids -/
-theorem retained_coverage {p : LPlan} (hp : PlanOk' p) {β : Type} (es : List (Nat × β))
-    (hne : es ≠ []) (hs : (es.map (·.1)).Pairwise (· < ·))
-    (hk : ∀ e ∈ es, ∃ g, p.get g = some e.1) :
-    ∃ w, serializeCoverage (es.map (·.1)) = .ok w ∧
-      ∀ n, w.toCoverage.get n = indexIn n (es.map (·.1)) := by
-  have hlt : ∀ x ∈ es.map (·.1), x < 65535 := by
-    intro x hx
-    obtain ⟨e, he, e1⟩ := List.mem_map.mp hx
-    obtain ⟨g, hg⟩ := hk e he
-    rw [← e1]
-    exact hp.newLt' _ ((hp.get_iff g e.1).mp hg)
-  have hlen := sorted_length_le hs 65535 hlt
-  obtain ⟨w, hw, _, hget⟩ := serializeCoverage_get (gs := es.map (·.1))
-    (by intro h; exact hne (List.map_eq_nil_iff.mp h)) hs
-    (fun x hx => by have := hlt x hx; omega) (by omega)
-  exact ⟨w, hw, hget⟩
-
-/-- a well-formed AttachList: coverage as the specification requires, one readable AttachPoint table
-per covered glyph -/
-structure AttachOk (p : LPlan) (a : AttachListIn) (c : Coverage) : Prop where
-  cov : a.cov = some c
-  covOk : CovOk p c
-  count : a.glyphCount = c.glyphs.length
-  readable : ∀ i, i < c.glyphs.length → ∃ bs, a.points[i]? = some (some bs)
-
-/-- **attach_list_subset**: `AttachList::subset` on a well-formed list: `Err(EMPTY)` exactly when no
-covered glyph is kept; otherwise the written list gives — through its coverage table — every kept
-covered glyph the AttachPoint table the original gave it, and covers no other id. -/
-theorem attach_list_subset {p : LPlan} (hp : PlanOk' p) {a : AttachListIn} {c : Coverage}
-    (ha : AttachOk p a c) :
-    (attachSem p a = .error .empty ∧ ∀ g ∈ c.glyphs, p.get g = none) ∨
-    ∃ o, attachSem p a = .ok o ∧
-      (∀ g n i bs, p.get g = some n → c.get g = some i → a.points[i]? = some (some bs) →
-        ∃ j, o.cov.toCoverage.get n = some j ∧ o.points[j]? = some bs) ∧
-      (∀ n, (∀ g ∈ c.glyphs, p.get g ≠ some n) → o.cov.toCoverage.get n = none) := by
-  have hitems : (c.glyphs.zipIdx).take (min p.numGlyphs a.glyphCount) = c.glyphs.zipIdx := by
-    apply take_all
-    rw [List.length_zipIdx, ha.count]
-    have := ha.covOk.length_le
-    omega
-  have hsorted : ((c.glyphs.zipIdx).map (·.1)).Pairwise (· < ·) := by
-    rw [List.zipIdx_map_fst]; exact ha.covOk.sorted
-  obtain ⟨entries, hent⟩ := attachGo_total p a.points c.glyphs.zipIdx (by
-    intro it hit _
-    obtain ⟨g, i⟩ := it
-    have := mem_zipIdx_iff.mp hit
-    exact ha.readable i (List.getElem?_eq_some_iff.mp this).1)
-  obtain ⟨hes, hmem⟩ := attachGo_spec p hp.toPlanOk a.points c.glyphs.zipIdx entries hsorted hent
-  unfold attachSem
-  simp only [ha.cov, hitems, hent]
-  by_cases he : entries = []
-  · left
-    subst he
-    refine ⟨by simp, ?_⟩
-    intro g hg
-    cases hgn : p.get g with
-    | none => rfl
-    | some n =>
-      exfalso
-      obtain ⟨i, hi, e⟩ := List.getElem_of_mem hg
-      obtain ⟨bs, hb⟩ := ha.readable i hi
-      have := (hmem n bs).mpr ⟨g, i, mem_zipIdx_iff.mpr (by rw [List.getElem?_eq_getElem hi, e]), hgn, hb⟩
-      cases this
-  · right
-    have hemp : entries.isEmpty = false := by cases entries <;> simp_all
-    obtain ⟨w, hw, hget⟩ := retained_coverage hp entries he hes (by
-      intro e hee
-      obtain ⟨g, _, _, hg, _⟩ := (hmem e.1 e.2).mp hee
-      exact ⟨g, hg⟩)
-    simp only [hemp, Bool.false_eq_true, ↓reduceIte, hw, Except.map]
-    refine ⟨_, rfl, ?_, ?_⟩
-    · intro g n i bs hgn hci hb
-      rw [ha.covOk.get_eq] at hci
-      have hm := (hmem n bs).mpr ⟨g, i, mem_zipIdx_iff.mpr (indexIn_getElem? hci), hgn, hb⟩
-      obtain ⟨j, h1, h2⟩ := entries_lookup entries n bs (hes.imp (fun h => Nat.ne_of_lt h)) hm
-      exact ⟨j, by rw [hget n]; exact h1, h2⟩
-    · intro n hn
-      rw [hget n]
-      apply indexIn_none_of_keys
-      intro bs hm
-      obtain ⟨g, i, hit, hgn, _⟩ := (hmem n bs).mp hm
-      exact hn g (List.mem_of_getElem? (mem_zipIdx_iff.mp hit)) hgn
-
 /-- **gdef_attach_points_preserved**: in the written GDEF every glyph kept for layout has the
 attachment point table it had in the original (the AttachPoint bytes: point count and point
 indices), looked up through the subset's AttachList coverage at the new glyph id; no AttachList is
@@ -771,269 +332,6 @@ theorem gdef_attach_points_preserved {p : LPlan} (hp : PlanOk' p) {g : GdefIn} {
       · rw [hout] at hy; injection hy with hy; subst hy
         exact ⟨out, e2, h1, h2⟩
 
-/-- a well-formed LigCaretList: coverage as the specification requires, one readable LigGlyph per
-covered glyph whose caret values are readable (format 3 with a readable Device / VariationIndex) -/
-structure LigOk (p : LPlan) (l : LigCaretListIn) (c : Coverage) : Prop where
-  cov : l.cov = some c
-  covOk : CovOk p c
-  count : l.count = c.glyphs.length
-  readable : ∀ i, i < c.glyphs.length → ∃ carets, l.ligs[i]? = some (.ok carets)
-
-/-- the caret value the subset has to hold for an original caret value: formats 1 and 2 (coordinate,
-contour point index) byte for byte; format 3 with the same coordinate and its Device table copied /
-its VariationIndex replaced by the new index of `layout_varidx_delta_map` -/
-def wantCaret (vmap : List (Nat × Nat)) : CaretIn → Option CaretOut
-  | .bad => none
-  | .f1 bs => some (.plain bs)
-  | .f2 bs => some (.plain bs)
-  | .f3 coord (some (.device bs)) => some (.f3 coord bs)
-  | .f3 coord (some (.varIdx outer inner)) =>
-    (vmap.lookup (outer * 65536 + inner)).map fun new => .f3 coord (be32 new ++ be16 0x8000)
-  | .f3 _ none => none
-
-theorem caretSem_want (vmap : List (Nat × Nat)) (c : CaretIn) (out : CaretOut)
-    (h : caretSem vmap c = .ok out) : wantCaret vmap c = some out := by
-  cases c with
-  | bad => cases h
-  | f1 bs => simp only [caretSem, pure, Except.pure, Except.ok.injEq] at h; subst h; rfl
-  | f2 bs => simp only [caretSem, pure, Except.pure, Except.ok.injEq] at h; subst h; rfl
-  | f3 coord dev =>
-    cases dev with
-    | none => cases h
-    | some d =>
-      cases d with
-      | device bs =>
-        simp only [caretSem, subsetDevice, pure, Except.pure, Except.map, Except.ok.injEq] at h
-        subst h; rfl
-      | varIdx o i =>
-        simp only [caretSem, subsetDevice] at h
-        cases hl : vmap.lookup (o * 65536 + i) with
-        | none => simp [hl, Except.map] at h
-        | some new =>
-          simp only [hl, pure, Except.pure, Except.map, Except.ok.injEq] at h
-          subst h
-          simp [wantCaret, hl]
-
-theorem ligGlyphSem_want (vmap : List (Nat × Nat)) (carets : List CaretIn) (out : List CaretOut)
-    (h : ligGlyphSem vmap carets = .ok out) :
-    carets.map (wantCaret vmap) = out.map some ∧ out ≠ [] := by
-  unfold ligGlyphSem at h
-  cases hm : carets.mapM (caretSem vmap) with
-  | error e => simp [hm] at h
-  | ok o' =>
-    simp only [hm] at h
-    split at h
-    · cases h
-    · rename_i hne
-      simp only [pure, Except.pure, Except.ok.injEq] at h
-      subst h
-      refine ⟨?_, by intro e; simp [e] at hne⟩
-      clear hne
-      induction carets generalizing o' with
-      | nil =>
-        simp only [List.mapM_nil, pure, Except.pure, Except.ok.injEq] at hm
-        subst hm; rfl
-      | cons c rest ih =>
-        simp only [List.mapM_cons, bind, Except.bind] at hm
-        cases hc : caretSem vmap c with
-        | error e => simp [hc] at hm
-        | ok oc =>
-          simp only [hc] at hm
-          cases hr : rest.mapM (caretSem vmap) with
-          | error e => simp [hr] at hm
-          | ok orest =>
-            simp only [hr, pure, Except.pure, Except.ok.injEq] at hm
-            subst hm
-            simp [caretSem_want vmap c oc hc, ih orest hr]
-
-theorem caretSem_not_empty (vmap : List (Nat × Nat)) (c : CaretIn) : caretSem vmap c ≠ .error .empty := by
-  cases c with
-  | bad => simp [caretSem]
-  | f1 bs => simp [caretSem, pure, Except.pure]
-  | f2 bs => simp [caretSem, pure, Except.pure]
-  | f3 coord dev =>
-    cases dev with
-    | none => simp [caretSem]
-    | some d =>
-      cases d with
-      | device bs => simp [caretSem, subsetDevice, pure, Except.pure, Except.map]
-      | varIdx o i =>
-        simp only [caretSem, subsetDevice]
-        cases vmap.lookup (o * 65536 + i) <;> simp [Except.map, pure, Except.pure]
-
-theorem mapM_caretSem_not_empty (vmap : List (Nat × Nat)) (cs : List CaretIn) :
-    cs.mapM (caretSem vmap) ≠ .error .empty := by
-  induction cs with
-  | nil => simp [pure, Except.pure]
-  | cons c rest ih =>
-    simp only [List.mapM_cons, bind, Except.bind]
-    cases hc : caretSem vmap c with
-    | error e =>
-      intro h; simp only at h; injection h with h; subst h
-      exact caretSem_not_empty vmap c hc
-    | ok oc =>
-      simp only
-      cases hr : rest.mapM (caretSem vmap) with
-      | error e =>
-        intro h; simp only at h; injection h with h; subst h
-        exact ih hr
-      | ok orest => simp [pure, Except.pure]
-
-/-- **lig_caret_list_subset**: whenever `LigCaretList::subset` writes a list for a well-formed
-original: every kept covered glyph whose LigGlyph is written has — through the subset's coverage —
-exactly its caret values in order (`wantCaret`: formats 1/2 unchanged incl. the format 2 point index,
-format 3 coordinate unchanged, Device copied, VariationIndex remapped); a kept covered glyph WITHOUT
-caret values is left out of the coverage (fix 87f42c2) and no other id is covered. -/
-theorem lig_caret_list_subset {p : LPlan} (hp : PlanOk' p) {vmap : List (Nat × Nat)}
-    {l : LigCaretListIn} {c : Coverage} (hl : LigOk p l c) {o : LigOut}
-    (h : ligSem p vmap l = .ok o) :
-    (∀ g n i carets, p.get g = some n → c.get g = some i → l.ligs[i]? = some (.ok carets) →
-      carets ≠ [] →
-      ∃ j out, o.cov.toCoverage.get n = some j ∧ o.ligs[j]? = some out ∧
-        carets.map (wantCaret vmap) = out.map some) ∧
-    (∀ g n i, p.get g = some n → c.get g = some i → l.ligs[i]? = some (.ok []) →
-      o.cov.toCoverage.get n = none) ∧
-    (∀ n, (∀ g ∈ c.glyphs, p.get g ≠ some n) → o.cov.toCoverage.get n = none) := by
-  have hitems : (c.glyphs.zipIdx).take (min p.numGlyphs l.count) = c.glyphs.zipIdx := by
-    apply take_all
-    rw [List.length_zipIdx, hl.count]
-    have := hl.covOk.length_le
-    omega
-  have hsorted : ((c.glyphs.zipIdx).map (·.1)).Pairwise (· < ·) := by
-    rw [List.zipIdx_map_fst]; exact hl.covOk.sorted
-  unfold ligSem at h
-  simp only [hl.cov, hitems] at h
-  cases hent : ligListGo p vmap l.ligs c.glyphs.zipIdx with
-  | error e => simp [hent] at h
-  | ok entries =>
-    simp only [hent] at h
-    obtain ⟨hes, hmem⟩ := ligListGo_spec p hp.toPlanOk vmap l.ligs c.glyphs.zipIdx entries hsorted hent
-    split at h
-    · cases h
-    · rename_i hne
-      have he : entries ≠ [] := by intro e; simp [e] at hne
-      obtain ⟨w, hw, hget⟩ := retained_coverage hp entries he hes (by
-        intro e hee
-        obtain ⟨g, _, _, _, hg, _⟩ := (hmem e.1 e.2).mp hee
-        exact ⟨g, hg⟩)
-      simp only [hw, Except.map, Except.ok.injEq] at h
-      subst h
-      simp only
-      -- a kept covered glyph with carets: its LigGlyph was subset (the whole list would have failed otherwise)
-      refine ⟨?_, ?_, ?_⟩
-      · intro g n i carets hgn hci hli hcne
-        rw [hl.covOk.get_eq] at hci
-        have hit := mem_zipIdx_iff.mpr (indexIn_getElem? hci)
-        -- the loop's outcome for this glyph
-        cases hs : ligGlyphSem vmap carets with
-        | ok out =>
-          have hm := (hmem n out).mpr ⟨g, i, carets, hit, hgn, hli, hs⟩
-          obtain ⟨j, h1, h2⟩ := entries_lookup entries n out (hes.imp (fun h => Nat.ne_of_lt h)) hm
-          exact ⟨j, out, by rw [hget n]; exact h1, h2, (ligGlyphSem_want vmap carets out hs).1⟩
-        | error e =>
-          exfalso
-          -- an error other than EMPTY aborts the loop; EMPTY needs an empty caret list
-          have hfail : ∀ (items : List (Nat × Nat)), (g, i) ∈ items →
-              ∀ es, ligListGo p vmap l.ligs items = .ok es → e = .empty := by
-            intro items
-            induction items with
-            | nil => intro hm; cases hm
-            | cons it rest ih =>
-              intro hm es hes'
-              obtain ⟨g', i'⟩ := it
-              simp only [ligListGo] at hes'
-              rcases List.mem_cons.mp hm with e1 | hm'
-              · injection e1 with e1 e2; subst e1; subst e2
-                simp only [hgn, hli, hs] at hes'
-                cases e with
-                | empty => rfl
-                | soft => simp at hes'
-                | hard => simp at hes'
-                | trap => simp at hes'
-              · cases hg' : p.get g' with
-                | none => simp only [hg'] at hes'; exact ih hm' es hes'
-                | some n' =>
-                  simp only [hg'] at hes'
-                  cases hl' : l.ligs[i']? with
-                  | none => simp [hl'] at hes'
-                  | some lg =>
-                    cases lg with
-                    | bad => simp [hl'] at hes'
-                    | ok cs =>
-                      simp only [hl'] at hes'
-                      cases hs' : ligGlyphSem vmap cs with
-                      | error e' =>
-                        cases e' with
-                        | empty => simp only [hs'] at hes'; exact ih hm' es hes'
-                        | soft => simp [hs'] at hes'
-                        | hard => simp [hs'] at hes'
-                        | trap => simp [hs'] at hes'
-                      | ok o' =>
-                        simp only [hs'] at hes'
-                        cases hr : ligListGo p vmap l.ligs rest with
-                        | error e'' => simp [hr, Except.map] at hes'
-                        | ok es' => exact ih hm' es' hr
-          have := hfail c.glyphs.zipIdx hit entries hent
-          subst this
-          -- EMPTY: mapM succeeded with an empty result, so there were no carets
-          unfold ligGlyphSem at hs
-          cases hm : carets.mapM (caretSem vmap) with
-          | error e' =>
-            simp only [hm] at hs
-            injection hs with hs
-            subst hs
-            exact mapM_caretSem_not_empty vmap carets hm
-          | ok o' =>
-            simp only [hm] at hs
-            split at hs
-            · rename_i hemp
-              cases carets with
-              | nil => exact hcne rfl
-              | cons c0 rest =>
-                simp only [List.mapM_cons, bind, Except.bind] at hm
-                cases hc0 : caretSem vmap c0 with
-                | error e' => simp [hc0] at hm
-                | ok oc =>
-                  simp only [hc0] at hm
-                  cases hr : rest.mapM (caretSem vmap) with
-                  | error e' => simp [hr] at hm
-                  | ok orest =>
-                    simp only [hr, pure, Except.pure, Except.ok.injEq] at hm
-                    subst hm
-                    simp at hemp
-            · cases hs
-      · intro g n i hgn hci hli
-        rw [hget n]
-        apply indexIn_none_of_keys
-        intro out hm
-        obtain ⟨g', i', cs, hit, hgn', hli', hs⟩ := (hmem n out).mp hm
-        have hgg := hp.get_inj hgn' hgn
-        subst hgg
-        rw [hl.covOk.get_eq] at hci
-        have h1 := mem_zipIdx_iff.mp hit
-        have h2 := indexIn_getElem? hci
-        -- the glyph occurs once in the coverage
-        have hii : i' = i := by
-          have hd := hl.covOk.sorted
-          have hi' := (List.getElem?_eq_some_iff.mp h1)
-          have hi := (List.getElem?_eq_some_iff.mp h2)
-          rcases Nat.lt_trichotomy i' i with hh | hh | hh
-          · have := List.pairwise_iff_getElem.mp hd i' i hi'.1 hi.1 hh
-            rw [hi'.2, hi.2] at this; omega
-          · exact hh
-          · have := List.pairwise_iff_getElem.mp hd i i' hi.1 hi'.1 hh
-            rw [hi'.2, hi.2] at this; omega
-        subst hii
-        rw [hli] at hli'; injection hli' with hli'; injection hli' with hli'
-        subst hli'
-        simp [ligGlyphSem, pure, Except.pure] at hs
-      · intro n hn
-        rw [hget n]
-        apply indexIn_none_of_keys
-        intro out hm
-        obtain ⟨g, i, _, hit, hgn, _⟩ := (hmem n out).mp hm
-        exact hn g (List.mem_of_getElem? (mem_zipIdx_iff.mp hit)) hgn
-
 /-- **gdef_lig_carets_preserved**: in the written GDEF every glyph kept for layout that has caret
 values keeps them, in order, looked up through the subset's LigCaretList coverage at the new glyph
 id: format 1 coordinate, format 2 contour point index and format 3 coordinate unchanged; a Device
@@ -1060,40 +358,6 @@ theorem gdef_lig_carets_preserved {p : LPlan} (hp : PlanOk' p) {g : GdefIn} {o :
       exact ⟨h1, h3⟩
 
 /-! ### mark glyph sets -/
-
-/-- well-formed MarkGlyphSets: every coverage table readable and as the specification requires -/
-def MarkSetsOk (p : LPlan) (m : MarkSetsIn) : Prop :=
-  ∀ s ∈ m.sets, ∃ c, s = some c ∧ CovOk p c
-
-theorem survive_iff_used {p : LPlan} (hp : PlanOk' p) {c : Coverage} (hc : CovOk p c) :
-    setUsed p (some c) = (survive p (some c)).isSome := by
-  have hsmall : (c.glyphs.filterMap p.get).length < 65536 := by
-    have h1 := kept_sorted hp.toPlanOk hc.sorted
-    have := sorted_length_le h1 65535 (by
-      intro x hx
-      obtain ⟨g, _, e⟩ := List.mem_filterMap.mp hx
-      exact hp.newLt' _ ((hp.get_iff g x).mp e))
-    omega
-  obtain ⟨hemp, hsucc⟩ := coverage_empty_iff_no_kept_glyph hp.toPlanOk hc hsmall
-  by_cases hu : setUsed p (some c) = true
-  · rw [hu]
-    simp only [setUsed, List.any_eq_true, List.contains_iff_mem, decide_eq_true_eq] at hu
-    obtain ⟨g, hg, hgs⟩ := hu
-    have hgs' : g ∈ p.glyphset := by simpa using hgs
-    obtain ⟨n, hn⟩ := hp.mem_glyphset hgs'
-    obtain ⟨w, hw⟩ := hsucc ⟨g, hg, by simp [kept, hn]⟩
-    simp [survive, hw]
-  · have hall : ∀ g ∈ c.glyphs, p.get g = none := by
-      intro g hg
-      cases hgn : p.get g with
-      | none => rfl
-      | some n =>
-        exfalso; apply hu
-        simp only [setUsed, List.any_eq_true]
-        exact ⟨g, hg, by simpa using (hp.get_lt hgn).2.2⟩
-    have := hemp.mpr hall
-    simp [survive, this]
-    simpa using hu
 
 /-- **gdef_mark_glyph_sets_preserved**: the written MarkGlyphSets are the original sets that have at
 least one glyph kept for layout, in their original order (format unchanged); a retained set `i`
@@ -1225,15 +489,6 @@ theorem gdef_mark_glyph_sets_preserved {p : LPlan} (hp : PlanOk' p) {g : GdefIn}
 
 /-! ### the variation store -/
 
-/-- a readable ItemVariationStore (the HVAR theorems' side conditions): byte data, fewer than 2^15
-region indexes per subtable, all inside the region list, every subtable holds its delta sets -/
-structure StoreOk (st : StoreIn) (axisCount : Nat) (regions : List (List (Int × Int × Int))) : Prop where
-  regs : st.regions = some (axisCount, regions)
-  regLe : regions.length ≤ 65536
-  subOk : ∀ t, SubsetHvar.SubIn.ok t ∈ st.subs →
-    (∀ b ∈ t.data, b < 256) ∧ t.regionIndexes.length < 32768 ∧ SubsetHvar.SubOk t ∧
-    ∀ ri ∈ t.regionIndexes, ri < regions.length
-
 /-- **gdef_store_rows_preserved**: when the GDEF variation store is written, row `i` of the inner map
 of source subtable `outer` (i.e. source row `inner_map[i]`) is row `i` of written subtable number
 `usedBefore inner outer` (= the number of source subtables with a non-empty inner map before it) and
@@ -1278,12 +533,6 @@ theorem gdef_store_rows_preserved {st : StoreIn} {axisCount : Nat}
             (SubsetHvar.usedBefore inner outer) outer
             (by simp [List.getElem?_map, hout]) (by simp [List.getElem?_map, ht, SubsetHvar.SubIn.toReader])
             coords i hi
-
-/-- what `remap_variation_indices` / `generate_varstore_inner_maps` compute: the variation index
-`(outer, inner_maps[outer][i])` becomes `(number of used subtables before outer, i)` -/
-def VarPlanSpec (vp : VarPlan) : Prop :=
-  ∀ outer im i, vp.inner[outer]? = some im → i < im.length →
-    vp.vmap.lookup (outer * 65536 + im[i]!) = some (SubsetHvar.usedBefore vp.inner outer * 65536 + i)
 
 /-- **gdef_var_deltas_preserved_partial**: for every variation index `(outer, inner)` the plan retains
 (`inner = inner_maps[outer][i]`): a ligature caret VariationIndex holding it is rewritten to the new
@@ -1335,6 +584,21 @@ theorem gdef_var_deltas_preserved_partial {p : LPlan} {g : GdefIn} {o : GdefOut}
         rfl
       · rw [e1, e2, eg]; exact hrows.2
 
+/-- non-vacuity (GDEF): a version 1.0 GDEF with a format 2 glyph class definition {3..6 ↦ 2, 9 ↦ 5}
+under the example plan: the written table is version 1.0 with the classes of the kept glyphs at their
+new ids -/
+example : (match subsetGdefSem exPlan exGdef with
+    | .ok o => some (o.minor, o.glyphClassDef)
+    | .error _ => none) = some (0, some (.fmt1 1 [2, 2, 5])) := by decide +kernel
+
+example : AttachOk exPlan { cov := some (.fmt1 [4, 9]), glyphCount := 2, points := [some [0, 0], some [0, 1, 0, 7]] }
+    (.fmt1 [4, 9]) :=
+  { cov := rfl, covOk := by simp [CovOk, exPlan], count := rfl,
+    readable := by
+      intro i hi
+      simp [Coverage.glyphs] at hi
+      rcases (by omega : i = 0 ∨ i = 1) with e | e <;> subst e <;> simp }
+
 /-! ## 4. GSUB / GPOS are passed through: what that means
 
 `subset_table` has no arm for GSUB / GPOS: `passthrough_table` copies the bytes
@@ -1343,22 +607,6 @@ No "subset subtable applied to the renumbered sequence" theorem can be stated ab
 because no subtable is subset.  What can be stated is when the verbatim copy happens to be right. -/
 
 theorem passthrough_is_identity (bytes : List Nat) : passthrough bytes = bytes := rfl
-
-/-- a glyph map: injective partial function -/
-def GlyphMapInj (f : Nat → Option Nat) : Prop := ∀ a b n, f a = some n → f b = some n → a = b
-
-/-- the passed-through SingleSubst is right for kept inputs: applying the (unchanged) subtable to the
-renumbered glyph gives the renumbering of what the original gives -/
-def SingleCorrect (f : Nat → Option Nat) (t : SingleSubst) : Prop :=
-  ∀ g n, f g = some n → t.apply n = (t.apply g).bind f
-
-/-- the passed-through PairPos format 1 subtable gives a renumbered kept pair the original value -/
-def PairCorrect {V : Type} (f : Nat → Option Nat) (t : PairPos1 V) : Prop :=
-  ∀ g1 n1 g2 n2, f g1 = some n1 → f g2 = some n2 → t.lookup n1 n2 = t.lookup g1 g2
-
-/-- a SingleSubst with a format 1 coverage as the specification requires it -/
-def SingleWf (t : SingleSubst) : Prop :=
-  ∃ xs, t.cov = .fmt1 xs ∧ xs.Pairwise (· < ·) ∧ (∀ x ∈ xs, x < 65536) ∧ t.subst.length = xs.length
 
 /-- **passthrough_lookup_correct_iff_identity_on_mentioned_glyphs** (SingleSubst): for an injective
 glyph map and a set `M` of kept glyphs: the verbatim copy is right for EVERY well-formed SingleSubst
@@ -1426,10 +674,6 @@ theorem passthrough_lookup_correct_iff_identity_on_mentioned_glyphs (f : Nat →
         have := hinj g n n hgn (hid n hnM)
         subst this; exact hgM hnM
       simp [SingleSubst.apply, h1, h2]
-
-/-- a PairPos format 1 subtable with a format 1 coverage as the specification requires it -/
-def PairWf {V : Type} (t : PairPos1 V) : Prop :=
-  ∃ xs, t.cov = .fmt1 xs ∧ xs.Pairwise (· < ·) ∧ (∀ x ∈ xs, x < 65536)
 
 /-- **passthrough_pairpos_correct_iff_identity_on_mentioned_glyphs**: the same characterisation for
 PairPos format 1 values (C16's `PairPos1.lookup`): the copied subtable gives every renumbered kept
@@ -1514,5 +758,13 @@ theorem passthrough_correct_under_retain_gids (f : Nat → Option Nat)
   cases ha : t.apply n with
   | none => rfl
   | some out => simp [hout n out ha (by simp [hgn])]
+
+/-- non-vacuity (pass-through): an injective glyph map and a well-formed SingleSubst subtable -/
+example : GlyphMapInj (fun g => if g < 10 then some (g + 1) else none) := by
+  intro a b n ha hb
+  by_cases h1 : a < 10 <;> by_cases h2 : b < 10 <;> simp [h1, h2] at ha hb
+  omega
+
+example : SingleWf ⟨.fmt1 [3, 7], [4, 8]⟩ := ⟨[3, 7], rfl, by simp, by simp, rfl⟩
 
 end FontVerif.C17Layout
